@@ -108,6 +108,15 @@ def buildFrom (b : Builder) : List Opt → BuildOutcome
 /-- `newArgBuilder(opts…)` -/
 def build (opts : List Opt) : BuildOutcome := buildFrom Builder.empty opts
 
+/-- `(*Value).Arg()`: a named value becomes `NamedSubtype(name, v, subtype)`, a type-only one
+`TypedSubtype(v, subtype)` (the kind is decided by the name alone). -/
+def valueArg (name sub : String) (v : Val) : Opt :=
+  if name ≠ "" then .namedSub name (some v) sub else .typedSub (some v) sub
+
+/-- `(*ValueSet).Args()`: one `Arg()` per value, in declaration order. -/
+def valueSetArgs (vals : List ((String × String) × Val)) : List Opt :=
+  vals.map (fun p => valueArg p.1.1 p.1.2 p.2)
+
 /-- `Func.argBuilder`: defaults stored on the `Func` are prepended -/
 def buildFor (defaults opts : List Opt) : BuildOutcome := build (defaults ++ opts)
 
